@@ -9,7 +9,7 @@ import WebAuthnModel.Theorems.C04
   fuel recursive (the audit step forbids `partial`), so every input has an answer; (b) fuel is never the reason for rejecting CBOR
   (`item_fuel_sufficient`) and the fuel, hence the recursion depth, is linear in the input length; (c) the absent-optional cases the
   property names are explicit rejects (or explicit non-demands), not crashes; (d) the regenerated panic-site facts about ALL non-test code
-  are the reviewed ones: the only explicit panics are at init time / in a test helper, there is no single-value type assertion, every
+  are the reviewed ones: no explicit panic can run after package initialisation, there is no single-value type assertion, every
   dereference through an optional pointer member is nil-checked, and the constant-index sites are the reviewed, length-guarded ones.
 -/
 namespace WebAuthn.C09
@@ -17,9 +17,12 @@ open WebAuthn
 
 /-! ### regenerated panic-site facts -/
 
-/-- explicit `panic` calls: only package initialisation (embedded Apple root PEM) and the unexported random-AAGUID helper (crypto/rand failure);
-    none is reachable from data supplied to an entry point -/
-theorem panic_calls_reviewed : Generated.Effects.panicCalls = ["webauthn.init", "webauthn.newRandomAAGUID"] := by decide
+/-- explicit `panic` calls: none in a function that can run once package initialisation is over.  The translator lists every function
+    with an explicit `panic` (`panicCalls`: today package initialisation — the embedded Apple root PEM — and the random-AAGUID helper, which
+    only tests call) and, separately, those of them that are not confined to initialisation: not an `init` function, and not an unexported
+    plain function whose every mention in non-test code is a direct call in a package-level initialiser or in another such function.
+    What runs only during initialisation runs before, and independently of, any data handed to an entry point. -/
+theorem panic_calls_reviewed : Generated.Effects.panicCallsAfterInit = [] := by decide
 
 /-- no single-value type assertion `x.(T)` anywhere (every assertion on statement members uses the comma-ok form) -/
 theorem no_single_value_assertions : Generated.Effects.singleValueAssertions = [] := by decide
